@@ -567,3 +567,71 @@ func (p *Prog) appendSitesIP(v ssa.Value) []*ssa.Call {
 	rec(v, 0)
 	return out
 }
+
+// podComparators: the up-to-date comparison of a pod with the replica set, found by what it does
+// rather than by its name — the top-most functions of the strategy package that return a bool, take
+// a *corev1.Pod and (transitively, inside the package) look the template-hash annotation key up in a
+// map. A rename, or turning the function into a method of Parameters, keeps it found.
+func (p *Prog) podComparators() map[*ssa.Function]bool {
+	if p.comparators != nil {
+		return p.comparators
+	}
+	p.comparators = map[*ssa.Function]bool{}
+	key, ok := p.constStr(pkgAPI, "MD5ExtendedDaemonSetAnnotationKey")
+	if !ok {
+		return p.comparators
+	}
+	readsKey := func(fn *ssa.Function) bool {
+		for _, g := range p.calleesWithin(fn, 3) {
+			if g.Pkg == nil || g.Pkg.Pkg.Path() != pkgStrategy {
+				continue
+			}
+			for _, b := range g.Blocks {
+				for _, in := range b.Instrs {
+					if l, ok := in.(*ssa.Lookup); ok {
+						if s, okc := constString(unwrap(l.Index)); okc && s == key {
+							return true
+						}
+					}
+				}
+			}
+		}
+		return false
+	}
+	var cands []*ssa.Function
+	for _, fn := range p.RepoFuncs() {
+		if fn.Pkg == nil || fn.Pkg.Pkg.Path() != pkgStrategy || fn.Parent() != nil {
+			continue
+		}
+		res := fn.Signature.Results()
+		if res.Len() != 1 || !isBoolType(res.At(0).Type()) {
+			continue
+		}
+		hasPod := false
+		for _, pr := range fn.Params {
+			if isPtrToNamed(pr.Type(), pkgCoreV1, "Pod") {
+				hasPod = true
+			}
+		}
+		if hasPod && readsKey(fn) {
+			cands = append(cands, fn)
+		}
+	}
+	for _, c := range cands {
+		top := true
+		for _, d := range cands {
+			if d == c {
+				continue
+			}
+			for _, g := range p.calleesWithin(d, 3) {
+				if g == c {
+					top = false
+				}
+			}
+		}
+		if top {
+			p.comparators[c] = true
+		}
+	}
+	return p.comparators
+}
